@@ -249,9 +249,18 @@ def check(run, replay=None):
     preds = {}
     mc_exhaustive = []
     if replay is None:
-        for mode, mtier in cfgp["modes"][tier]:
-            r = tlc(run, "MC_Routing", MC_CFG % (mode, mtier, "TRUE", "TRUE"), workers=NCPU, heap="6g",
-                    tag="MC_Routing-%s-%s" % (mode, mtier))
+        modes = cfgp["modes"][tier]
+        per = max(4, NCPU // max(1, min(len(modes), 3)))
+
+        def run_mode(mm):
+            mode, mtier = mm
+            return mm, tlc(run, "MC_Routing", MC_CFG % (mode, mtier, "TRUE", "TRUE"), workers=per, heap="6g",
+                           tag="MC_Routing-%s-%s" % (mode, mtier), timeout=7200)
+
+        # the pools are independent models: explored side by side
+        with cf.ThreadPoolExecutor(max_workers=3) as ex:
+            results = list(ex.map(run_mode, modes))
+        for (mode, mtier), r in results:
             if r.violated:
                 raise Infra("design check failed: MC_Routing (%s/%s) violates %s - the specification itself is "
                             "inconsistent (independent of /repo)\n%s" % (mode, mtier, r.violated, "\n".join(r.lines[-60:])))
@@ -263,7 +272,7 @@ def check(run, replay=None):
     else:
         tables = [replay["table"]]
     plan = dict(cfgp["plan"])
-    plan.update(tables=tables, random=0, profile="mixed", reqsPer=0)
+    plan.update(tables=[{k: v for k, v in t.items() if not k.startswith("_")} for t in tables], random=0, profile="mixed", reqsPer=0)
     traces = []
     traces.append(("mc", run_harness(run, vh, "route", plan, "route-mc")))
     if replay is None:
@@ -305,9 +314,11 @@ def check(run, replay=None):
                 tid = ev["_mc_tid"]
                 # requests keep their order, but unparsable ones are skipped by the harness: match by content
                 tcase = tables[tid - 1]
-                try:
-                    idx = next(i for i, rq in enumerate(tcase["reqs"]) if all(rq[k] == ev["req"][k] for k in ("m", "path", "ct", "acc", "clen", "clh", "conds")))
-                except StopIteration:
+                if "_index" not in tcase:
+                    tcase["_index"] = {json.dumps([rq[k] for k in ("m", "path", "ct", "acc", "clen", "clh", "conds")]): i
+                                       for i, rq in enumerate(tcase["reqs"])}
+                idx = tcase["_index"].get(json.dumps([ev["req"][k] for k in ("m", "path", "ct", "acc", "clen", "clh", "conds")]))
+                if idx is None:
                     continue
                 for router, plist in (("curly", preds[tid][0]), ("jsr311", preds[tid][1])):
                     if not plist:
